@@ -51,6 +51,9 @@ func randLen(r *rand.Rand, big bool) int {
 	case x < 9 || !big:
 		return r.Intn(3000)
 	default:
+		if r.Intn(4) == 0 { // around the third length-field boundary
+			return 16384 + r.Intn(5) - 2
+		}
 		return 3000 + r.Intn(17001)
 	}
 }
